@@ -20,7 +20,7 @@ type c07Item struct {
 }
 
 var c07Leaves = []string{"D", "U", "A", "brk", "cont", "ret", "callf", "callg"}
-var c07Containers = []string{"if", "for3", "forr", "forj", "sw", "fnfx", "fnfi", "fng", "fngi", "fnfxx"}
+var c07Containers = []string{"if", "for3", "forr", "forj", "sw", "fnfx", "fnfi", "fng", "fngi", "fnfxx", "for3v", "for3c"}
 
 func c07Blocks(kind string) int {
 	if kind == "sw" {
@@ -198,6 +198,16 @@ func (s *c07Scoper) item(it c07Item, depth int) {
 		s.block(it.kids[0], depth+1)
 		s.loopDepth--
 		s.pop()
+	case "for3v", "for3c":
+		s.push()
+		s.define("x")
+		if it.kind == "for3c" {
+			s.define(fmt.Sprintf("y%d", depth))
+		}
+		s.loopDepth++
+		s.block(it.kids[0], depth+1)
+		s.loopDepth--
+		s.pop()
 	case "forr":
 		s.push()
 		s.define(fmt.Sprintf("i%d", depth))
@@ -277,7 +287,8 @@ func c07Judge(items []c07Item) (c07Verdict, string) {
 // ---------------------------------------------------------------- skeleton -> program
 
 type c07Builder struct {
-	marker int
+	needTwo bool
+	marker  int
 	funcs  map[string]string
 }
 
@@ -334,6 +345,13 @@ func (b *c07Builder) item(it c07Item, depth int) []Stmt {
 	case "for3":
 		return []Stmt{For{Init: Define{Names: []string{"x"}, Form: DefShort, Vals: []Expr{IntLit{0}}}, Cond: Binary{Op: "<", L: Var{"x"}, R: IntLit{1}}, Post: IncDec{Name: "x", Inc: true},
 			Body: append([]Stmt{b.mark()}, b.block(it.kids[0], depth+1)...)}}
+	case "for3v":
+		return []Stmt{For{Init: Define{Names: []string{"x"}, Form: DefVarTypeIn, T: TInt, Vals: []Expr{IntLit{0}}}, Cond: Binary{Op: "<", L: Var{"x"}, R: IntLit{1}}, Post: IncDec{Name: "x", Inc: true},
+			Body: append([]Stmt{b.mark()}, b.block(it.kids[0], depth+1)...)}}
+	case "for3c":
+		b.needTwo = true
+		return []Stmt{For{Init: Define{Names: []string{"x", fmt.Sprintf("y%d", depth)}, Form: DefVarInit, Vals: []Expr{Call{Fn: "two"}}}, Cond: Binary{Op: "<", L: Var{"x"}, R: IntLit{1}}, Post: IncDec{Name: "x", Inc: true},
+			Body: append([]Stmt{b.mark()}, b.block(it.kids[0], depth+1)...)}}
 	case "forr":
 		return []Stmt{ForRange{I: fmt.Sprintf("i%d", depth), V: "x", X: SliceLit{Elem: TInt, Elems: []Expr{IntLit{id}}}, Body: append([]Stmt{b.mark()}, b.block(it.kids[0], depth+1)...)}}
 	case "forj":
@@ -371,6 +389,9 @@ func c07Prog(items []c07Item) *Prog {
 	b := &c07Builder{funcs: map[string]string{}}
 	st := b.block(items, 0)
 	st = append(st, Print{Args: []Expr{StrLit{V: "end"}}})
+	if b.needTwo {
+		st = append([]Stmt{FuncDef{Name: "two", Rets: []Type{TInt, TInt}, Body: []Stmt{Return{Vals: []Expr{IntLit{0}, IntLit{5}}}}}}, st...)
+	}
 	return &Prog{Stmts: st}
 }
 
@@ -399,12 +420,14 @@ type c07ImportCase struct {
 }
 
 func c07ImportCases() []c07ImportCase {
-	lib := "func Get() int {\n\treturn 7\n}\nfunc helper() int {\n\treturn 8\n}\nfunc Wrap() int {\n\treturn helper() + 1\n}\n"
+	lib := "func Get() int {\n\treturn 7\n}\nfunc helper() int {\n\treturn 8\n}\nfunc Wrap() int {\n\treturn helper() + 1\n}\nfunc _under() int {\n\treturn 9\n}\nfunc _Upper() int {\n\treturn _under() + 1\n}\n"
 	imp := "import (\n\tlb \"lib.tsh\"\n)\n"
 	return []c07ImportCase{
 		{"public via alias", imp + "print(lb.Get())\n", lib, true},
 		{"public calling private via alias", imp + "print(lb.Wrap())\n", lib, true},
 		{"private via alias", imp + "print(lb.helper())\n", lib, false},
+		{"underscore-lowercase name via alias (not exported)", imp + "print(lb._under())\n", lib, false},
+		{"underscore-uppercase name via alias (not exported: first character is not an upper-case letter)", imp + "print(lb._Upper())\n", lib, false},
 		{"public bare", imp + "print(Get())\n", lib, false},
 		{"private bare", imp + "print(helper())\n", lib, false},
 		{"wrong alias", imp + "print(xx.Get())\n", lib, false},
